@@ -34,7 +34,7 @@ def vtimezone(spec, variant="rrule", tzid="Test/Zone", first_year=1970, rdate_ye
     def comp(kind, rule, off_from, off_to, name):
         dt0 = _onset_local(rule, first_year)
         lines = ["BEGIN:%s" % kind, "DTSTART:%s" % dt0.strftime("%Y%m%dT%H%M%S")]
-        if variant in ("rrule", "swapped", "folded", "lower"):
+        if variant in ("rrule", "swapped", "folded", "lower", "relabel"):
             _, m, w, d = rule[:4]
             n = -1 if w == 5 else w
             lines.append("RRULE:FREQ=YEARLY;BYMONTH=%d;BYDAY=%+d%s" % (m, n, BYDAY[d]))
@@ -45,6 +45,9 @@ def vtimezone(spec, variant="rrule", tzid="Test/Zone", first_year=1970, rdate_ye
         return lines
     sc = comp("STANDARD", spec["end"], dst, std, spec["std"])
     dc = comp("DAYLIGHT", spec["start"], std, dst, spec["dst"])
+    if variant == "relabel":      # negative saving: the block that sets clocks BACK is the one labelled DAYLIGHT
+        sc = comp("DAYLIGHT", spec["end"], dst, std, spec["std"])
+        dc = comp("STANDARD", spec["start"], std, dst, spec["dst"])
     body = (dc + sc) if variant == "swapped" else (sc + dc)
     lines = ["BEGIN:VTIMEZONE", "TZID:%s" % tzid] + body + ["END:VTIMEZONE"]
     if variant == "folded":
@@ -74,6 +77,31 @@ def build_zone(kind, spec):
         return tz.tzical(io.StringIO(vtimezone(spec, "rdate", rdate_years=6))).get()
     text = vtimezone(spec, variant)
     return tz.tzical(io.StringIO(text)).get()
+
+
+def h_relabel(spec, year):
+    """Offset and abbreviation at a wall time (fold 0 and 1) are fixed by the onsets and TZOFFSETTO / TZNAME values; which
+    block carries the label DAYLIGHT (negative-saving definitions, Irish style) must not change them.  The conventional
+    labelling is the one tied to POSIX by the h_rule cells; dst() and fromutc are not compared (outside)."""
+    za = build_zone("tzical:rrule", spec)
+    zb = build_zone("tzical:relabel", spec)
+    y0 = (datetime.date(year, 1, 1).toordinal() - EPOCH_ORD) * 86400
+    lo, hi = y0 - 3 * 86400, y0 + 369 * 86400
+    types = dict(t=int)
+
+    def fn(ctx, t):
+        ctx.assume(S.within(t, lo, hi))
+        for z in (za, zb):
+            del z._cachedate[:]
+            del z._cachecomp[:]
+        for fold in (0, 1):
+            a = tsdt.mk(ctx, t, za, fold, year_hint=year)
+            b = tsdt.mk(ctx, t, zb, fold, year_hint=year)
+            tag = "relabel|%s|%d|fold%d" % (P.render(spec), year, fold)
+            ctx.check(S.eq(tsdt.secs(a.utcoffset()), tsdt.secs(b.utcoffset())), "offset at a wall time depends on which block is labelled DAYLIGHT", key=tag + "|offset")
+            ctx.check(a.tzname() == b.tzname(), "abbreviation at a wall time depends on which block is labelled DAYLIGHT", key=tag + "|abbr")
+        return None
+    return fn, types
 
 
 def h_malformed():
@@ -256,6 +284,9 @@ def cells(tier):
                     cs.append(Cell(M, "h_rule", dict(kind="tzical:" + v, spec=spec, year=y, wallmode=wm),
                                    name="tzical:%s[%s]@%d%s" % (v, P.render(spec), y, "/wall" if wm else "/utc"),
                                    budget_s=150 if q else 600, per_path_s=30, max_violations=100))
+    for spec in sp[:3]:
+        for y in ((1972,) if q else (1972, 1975)):
+            cs.append(Cell(MF, "h_relabel", dict(spec=spec, year=y), name="relabel[%s]@%d" % (P.render(spec), y), budget_s=150 if q else 600, per_path_s=30, max_violations=20))
     return cs
 
 
@@ -269,7 +300,7 @@ ASSUMPTIONS = [
     "folding cells: one definition whose TZID and TZNAMEs contain blanks, folded at every column of every line (and all lines at a common column), pinned per path, parsed natively and compared with the unfolded text's zone at three instants",
 ]
 OUTSIDE = ["J / n rule forms (not expressible as yearly BYDAY rules)", "instants before the first onset", "definitions with only DAYLIGHT components",
-           "definitions with negative daylight saving (the DAYLIGHT component sets clocks back)"]
+           "definitions with negative daylight saving (the DAYLIGHT component sets clocks back): only offset and abbreviation at wall times (relabel cells), not dst() / fromutc"]
 
 
 def run(tier, seed, jobs):
